@@ -30,9 +30,11 @@ import (
 	"fmt"
 	"sort"
 	"strings"
+	"sync"
 	"testing"
 	"time"
 
+	sgbucket "github.com/couchbase/sg-bucket"
 	"github.com/couchbase/sync_gateway/auth"
 	"github.com/couchbase/sync_gateway/base"
 	"github.com/couchbase/sync_gateway/channels"
@@ -141,6 +143,38 @@ type vC18DB struct {
 	ver    map[string]int
 	base   uint64
 	nonce  int
+	race   bool // resyncs of the current scenario run against a racing writer
+	raced  int  // resync writes raced so far
+}
+
+// vC18RaceStore stands for another writer racing with the resync ("including writes racing with the resync"): the
+// first time the resync is about to write a document (its update callback produced an update, the CAS write has not
+// happened yet) the document's CAS is moved by a Touch that bypasses the gateway - as an SDK TTL change would.  The
+// resync's write fails its CAS check and the update is recomputed on the reloaded document; the outcome must be the
+// one of an undisturbed run.  Documents the resync leaves alone are not touched, so the recorded version counters
+// keep their meaning.
+type vC18RaceStore struct {
+	base.DataStore
+	sgbucket.ViewStore
+	mu      sync.Mutex
+	touched map[string]bool
+}
+
+func (s *vC18RaceStore) WriteUpdateWithXattrs(ctx context.Context, k string, xattrKeys []string, exp uint32, previous *sgbucket.BucketDocument, opts *sgbucket.MutateInOptions, callback sgbucket.WriteUpdateWithXattrsFunc) (uint64, error) {
+	wrapped := func(current []byte, xattrs map[string][]byte, cas uint64) (sgbucket.UpdatedDoc, error) {
+		d, err := callback(current, xattrs, cas)
+		if err == nil {
+			s.mu.Lock()
+			first := !s.touched[k]
+			s.touched[k] = true
+			s.mu.Unlock()
+			if first {
+				_, _ = s.DataStore.Touch(ctx, k, 86400)
+			}
+		}
+		return d, err
+	}
+	return s.DataStore.WriteUpdateWithXattrs(ctx, k, xattrKeys, exp, previous, opts, wrapped)
 }
 
 func vC18Open(t *testing.T, name string) *vC18DB {
@@ -521,6 +555,19 @@ func (x *vC18DB) request(u string) vObj {
 
 // resync = the real background manager, run to completion as db/background_mgr_resync_dcp_test.go does
 func (x *vC18DB) resync(regen bool) (changed, processed int64) {
+	if x.race && !regen {
+		// (not with regenerate_sequences: the recomputed update draws a second sequence, which the model's exact
+		// sequence accounting of pass C does not describe)
+		// until the reopen at the end of this resync (which builds a new context with the plain store)
+		vs, _ := x.col.DatabaseCollection.dataStore.(sgbucket.ViewStore)
+		rs := &vC18RaceStore{DataStore: x.col.DatabaseCollection.dataStore, ViewStore: vs, touched: map[string]bool{}}
+		x.col.DatabaseCollection.dataStore = rs
+		defer func() {
+			rs.mu.Lock()
+			x.raced += len(rs.touched)
+			rs.mu.Unlock()
+		}()
+	}
 	if err := x.db.ResyncManager.Start(x.ctx, ResyncOptions{Collections: base.NewCollectionNames(), RegenerateSequences: regen}); err != nil {
 		x.fatal("ResyncManager.Start", err)
 	}
@@ -600,6 +647,8 @@ func TestVerif_C18_Resync(t *testing.T) {
 		}
 		R.setFn(fn1)
 		R.begin(s, "x")
+		// every other scenario runs its resyncs against a racing writer (vC18RaceStore)
+		R.race = vEnvInt("VERIF_C18_NORACE", 0) == 0 && s.ID%2 == 1
 		admch, admro := vObj{}, vObj{}
 		for _, p := range append(append([]string{}, vC18Users...), vC18Roles...) {
 			admch[p] = vC18Sorted(append([]string{}, s.AdmCh[p]...))
@@ -638,7 +687,7 @@ func TestVerif_C18_Resync(t *testing.T) {
 				r0 := time.Now()
 				changed, processed := R.resync(st.Regen)
 				tResync += time.Since(r0)
-				emit(vObj{"a": "Resync", "regen": st.Regen, "changed": int(changed), "processed": int(processed)})
+				emit(vObj{"a": "Resync", "regen": st.Regen, "changed": int(changed), "processed": int(processed), "raced": R.raced})
 			case "Scratch":
 				// the same writes on a database that has used the CURRENT function from the beginning
 				if scratchDone {
@@ -686,5 +735,5 @@ func TestVerif_C18_Resync(t *testing.T) {
 		}
 		R.end()
 	}
-	t.Logf("C18 harness: %d scenarios in %v (resync %v)", len(scns), time.Since(t0), tResync)
+	t.Logf("C18 harness: %d scenarios in %v (resync %v); %d resync writes raced by a CAS-moving touch", len(scns), time.Since(t0), tResync, R.raced)
 }
